@@ -1,17 +1,3 @@
 package main
 
-// Pieces filled in later: bounded stand-ins, lemma bridge, model extraction, replay on real code.
-
 func cmdSelftest(args []string) int { return 2 }
-
-func runBounded(eng *Engine, prop, name, tier string, seed int) (note string, failingReplay string) {
-	return "bounded stand-in " + name + ": not implemented", ""
-}
-
-func checkLemma(eng *Engine, name string) (bool, string) { return true, "lemma " + name + ": not checked" }
-
-func findModel(eng *Engine, f *OblResult, work string) (string, map[string]any) { return "", nil }
-
-func replayOnRealCode(eng *Engine, prop, obl string, f *OblResult, inputs map[string]any) (bool, string) {
-	return false, ""
-}
